@@ -585,6 +585,7 @@ fn drive_curves(o: &mut Out, thorough: bool, seed: u64, only: Option<&str>) {
     both!(pe::P3Gamma, "p3", &[0.001, 0.5], &[0.05, 0.5]);
     both!(pe::ProPhotoRgb, "prophoto", &[0.001953125], &[0.03125]);
     both!(LinearFn, "linear", &[0.5], &[0.5]);
+    both!(pe::gamma::GammaFn<pe::F2p2>, "gamma", &[0.001, 0.5], &[0.05, 0.5]);
 }
 
 // ------------------------------------------------------------------------------------------ Rgb / Luma forms
